@@ -182,6 +182,15 @@ def network(draw, nmin=2, nmax=8, max_branches=14, opens_shorts=False, min_sourc
             b['kind'], b['p'] = kind, draw(network_element(kind, cplx))
             nsrc += 1
         j += 1
+    # occasionally the whole excitation lives in the nA/pV (or MV) range: solutions are linear in the sources, no
+    # absolute threshold may decide that "nothing is there"
+    f = draw(st.sampled_from([1.0] * 9 + [1e-9, 3e-12, 1e-15, 1e6]))
+    if f != 1.0:
+        for b in branches:
+            if b['kind'] in ('vsrc', 'isrc', 'linv', 'lini'):
+                for key in ('V', 'I'):
+                    if key in b['p']:
+                        b['p'][key] = _scale(b['p'][key], f)
     ref = node_names[draw(st.integers(0, n - 1))]
     return {'ref': ref, 'branches': branches}
 
